@@ -178,6 +178,70 @@ POSITIONS = [
 ]
 
 
+def name_language(ctx, var_pat, str_pat, maxlen):
+    """which strings are variable names: a letter followed by letters and digits, unless the string BEGINS with a
+    reserved word (the dialect the tool documents: a keyword inside or at the end of a name does not end it).  z3 decides
+    that the real var / str_var regexes match every such name completely (so that the visitors then see the whole name
+    and keep its first two characters) and nothing else."""
+    from coco.b09 import grammar as G
+
+    kws = [k for k in G.KEYWORDS.split("|") if k]
+    alnum = z3.Union(z3.Range("A", "Z"), z3.Range("0", "9"))
+    ident = z3.Concat(z3.Range("A", "Z"), z3.Star(alnum))
+    anyc = z3.Full(z3.ReSort(z3.StringSort()))
+    # keyword prefixes: the list is taken from the grammar module as data (regex metacharacters in it are escaped here)
+    starts_kw = rxsmt.union(z3.Concat(rxsmt.lang("(?:" + k + ")"), anyc) for k in kws)
+    n = z3.String("name")
+    L_var, L_str = rxsmt.lang(var_pat), rxsmt.lang(str_pat)
+    for kind, lang, suffix in (("num", L_var, ""), ("str", L_str, "$")):
+        whole = z3.Concat(n, z3.StringVal(suffix)) if suffix else n
+        ref = [z3.InRe(n, ident), z3.Not(z3.InRe(whole, starts_kw)), z3.Length(n) <= maxlen]
+        for direction, query in (("reference-name-not-matched", ref + [z3.Not(z3.InRe(whole, lang))]),
+                                 ("matched-but-not-a-name", [z3.InRe(whole, lang), z3.Length(n) <= maxlen, z3.Not(z3.And(*ref[:2]))])):
+            ctx.stats["obligations"] += 1
+            v, m = smt.check(query, 8000, True)
+            ctx.stats[v] += 1
+            ctx.sample({"query": f"name language ({kind}): {direction}", "verdict": v})
+            if v == "sat":
+                nm = rxsmt.z3str(m.eval(n, True).as_string())
+                carrier = nm + suffix
+                o = classify(f"10 {carrier}=" + ('"X"' if suffix else "1") + "\n")
+                ctx.stats["traces_validated_against_impl"] += 1
+                want = nm[:2] + suffix
+                got = re.search(r"^10 (\S+?)(\(.*\))? := ", o[1], re.M).group(1) if o[0] == "ok" and re.search(r"^10 (\S+?)(\(.*\))? := ", o[1], re.M) else None
+                if direction == "reference-name-not-matched" and got != want:
+                    ctx.violation(f"name-language:{kind}:{direction}", f"`10 {carrier}=...` -> {o[0]} {(o[1] or '')[:60]!r}: the name is not read as the variable {want}", {"names": [nm, nm], "kind": kind})
+                elif direction == "matched-but-not-a-name":
+                    ctx.note_inconclusive(f"name language ({kind}): the regex also matches {carrier!r}, which the reference does not call a name")
+                else:
+                    raise HarnessError(f"name-language model {carrier!r} did not replay: {o}")
+            elif v == "unknown":
+                ctx.note_inconclusive(f"name language ({kind}) {direction}")
+
+
+def embedded_keywords(ctx):
+    """every reserved word of the tool's keyword list inside or at the end of a name (never at its start): the name is
+    still one variable, known by its first two characters"""
+    from coco.b09 import grammar as G
+
+    kws = sorted({k.replace("\\", "") for k in G.KEYWORDS.split("|") if re.fullmatch(r"[A-Z]+\\?\$?", k)})
+    for k in kws:
+        base = k.rstrip("$")
+        for stem, suffix in (("X" + base, ""), ("X" + base + "Y", ""), ("XY" + base, ""), ("Q" + base + "1", ""), ("X" + base, "$"), ("XY" + base + "Z", "$")):
+            if any(stem.startswith(r.replace("\\", "").rstrip("$")) for r in G.KEYWORDS.split("|") if r and re.fullmatch(r"[A-Z]+\\?\$?", r)):
+                continue  # the whole name would begin with (another) reserved word: not a name in this dialect
+            carrier = stem + suffix
+            o = classify(f"10 {carrier}=" + ('"X"' if suffix else "1") + "\n")
+            ctx.stats["programs"] += 1
+            ctx.stats["obligations"] += 1
+            mm = re.search(r"^10 (\S+?)(\(.*\))? := ", o[1], re.M) if o[0] == "ok" else None
+            want = stem[:2] + suffix
+            if mm and mm.group(1) == want and o[1].count("\n") == 1:
+                ctx.stats["identity"] += 1
+            else:
+                ctx.violation(f"name-with-embedded-keyword:{'str' if suffix else 'num'}:{'refused' if o[0] != 'ok' else 'split'}", f"`10 {carrier}=...` (keyword {k} inside the name) -> {o[0]} {(o[1] or '')[:70]!r}; expected one assignment to {want}", {"names": [stem, stem], "kind": "str" if suffix else "num"})
+
+
 def same_name_kinds(ctx):
     """one two-character name used as scalar, string, array and string array in one program: four identifiers, each
     array declared (explicitly DIMmed or not, in either order of first use)"""
@@ -218,6 +282,19 @@ def same_name_kinds(ctx):
                                 ident = name[:2] + ("$" if k == "str" else "")
                                 if not re.search(r"(?m)(^|\\ )\s*" + re.escape(ident) + r" := (0\.0|\"\")", head):
                                     uninit.append(ident)
+                    if kw.get("default_str_storage", 32) != 32:
+                        # a string scalar keeps its own storage declaration beside a string array of the same name
+                        short = []
+                        for u in used:
+                            key = u[1].upper()
+                            if key.endswith("$") and not key.startswith("TMP_"):
+                                d = decls.get(key)
+                                cap = 32 if d is None or d[2] is None else d[2]
+                                if cap != kw["default_str_storage"]:
+                                    short.append(f"{u[1]}:{cap}")
+                        if short:
+                            ctx.violation(f"kinds-string-capacity:{'/'.join(order)}:{'dim-' + dimmed if dimmed else 'implicit'}", f"{src!r} {kw}: declared capacity {sorted(set(short))}, requested {kw['default_str_storage']}", {"source": src})
+                            continue
                     if uninit:
                         ctx.violation(f"kinds-scalar-not-initialised:{'/'.join(order)}:{'dim-' + dimmed if dimmed else 'implicit'}", f"{src!r} {kw}: scalar {uninit} is not pre-initialised although only the array of that name is declared", {"source": src})
                     elif len(idents) < want:
@@ -377,6 +454,8 @@ def run(tier):
             ctx.stats["identity"] += 1
         else:
             ctx.violation("position:" + tpl, f"names XY / XYZW / XY9 give different results in `{tpl}`", {"template": tpl, "outputs": [str(o)[:300] for o in outs]})
+    name_language(ctx, var_pat, str_pat, maxlen)
+    embedded_keywords(ctx)
     same_name_kinds(ctx)
     generated_not_initialised(ctx, gen_out, G)
     ctx.add_solver_stats(stats.export())
